@@ -59,6 +59,9 @@ def run(ck: Checker):
             server.check_unknown_id_tolerated(ck, 'C07-2', s)
             server.check_slot_return(ck, 'C06-4', s)
         c09.check_one_destination(ck, 'C09-3')
+        from .c04 import check_onboarding
+
+        check_onboarding(ck, 'C04-11')  # the thread that feeds the first process stage survives an input that cannot be pickled
         c09.check_queue_locks(ck, 'C09-7')
         c09.check_batch_returned(ck, 'C09-7', ck.repo.func(WORKER, 'Worker._get_input_batch'))
 
